@@ -128,6 +128,58 @@ func c07GenProg(rng *kit.RNG, maxLen int, real bool) []c07Op {
 	if rng.Chance(1, 10) {
 		ins(rng.Intn(len(prog)+1), c07Op{Kind: "P"})
 	}
+	// Requests whose context has expired (drawn last, so the programs of a seed
+	// are the earlier ones plus these marks / insertions): in two of five
+	// programs one report of an in-sync follower naming the current pair is
+	// made with a deadline that has already passed ("dead") or is a millisecond
+	// away ("tight") — if it completes the quorum, the election it triggers
+	// cannot be replicated and FAILS; in half of those programs more than the
+	// timeout then passes (X, directly or one call later) and another follower
+	// report follows, possibly after a second X.  Now and then an ISR change is
+	// made with such a context too (the change is refused by the deadline, or
+	// committed although the caller is told "timed out").
+	mark := func(k int) {
+		prog[k].Ctx = "dead"
+		if rng.Chance(1, 4) {
+			prog[k].Ctx = "tight"
+		}
+	}
+	if rng.Chance(2, 5) {
+		var idx []int
+		for i, o := range prog {
+			if o.Kind == "R" && strings.HasPrefix(o.Who, "f") && (o.Pair == "" || o.Pair == "cur") {
+				idx = append(idx, i)
+			}
+		}
+		if len(idx) > 0 {
+			k := idx[rng.Intn(len(idx))]
+			mark(k)
+			if rng.Chance(1, 2) {
+				at := k + 1 + rng.Intn(2)
+				late := "X"
+				if real && rng.Chance(1, 4) {
+					late = "G"
+				}
+				ins(at, c07Op{Kind: late})
+				if rng.Chance(1, 4) {
+					ins(at+1, c07Op{Kind: "X"})
+					at++
+				}
+				ins(at+1+rng.Intn(2), c07Op{Kind: "R", Who: fol(), Pair: "cur"})
+			}
+		}
+	}
+	if rng.Chance(1, 8) {
+		var idx []int
+		for i, o := range prog {
+			if o.Kind == "S" || o.Kind == "E" {
+				idx = append(idx, i)
+			}
+		}
+		if len(idx) > 0 {
+			mark(idx[rng.Intn(len(idx))])
+		}
+	}
 	return prog
 }
 
@@ -170,7 +222,7 @@ func c07RunOnControllers(rep *kit.Report, tag string, w int, cases []c07Case, pr
 func TestVerifC07Seq(t *testing.T) {
 	rep := kit.NewReport("C07", "seq")
 	defer rep.Write()
-	rep.SetRule("seeded programs of 3..16 calls on a fresh partition with 3..5 phantom replicas: ReportLeader from in-sync followers / the leader / out-of-sync replicas / an unknown id, ShrinkISR of a follower / the leader / a non-member, ExpandISR of an out-of-sync / in-sync replica, each naming the current or a stale (leader, epoch); X = more than the timeout passes (the pending expiry timer is stopped and failover.OnExpired invoked, exactly what the timer does); L = metadataAPI.LostLeadership(); in half of the programs P = PauseStream and, directly or up to two calls later, Q = the RESUME_STREAM entry that replaces the partition object are inserted between the calls (plus now and then a resume of a running partition or a pause that is never resumed); the monitors' memory (epochs, leader per epoch, reports of the window) spans the replacement. I1-I6 checked after every call and at every committed Raft entry; non-trivial = a leader change or ISR change was committed or a stale request was refused; distinct = (replicas, initial leader, program)")
+	rep.SetRule("seeded programs of 3..16 calls on a fresh partition with 3..5 phantom replicas: ReportLeader from in-sync followers / the leader / out-of-sync replicas / an unknown id, ShrinkISR of a follower / the leader / a non-member, ExpandISR of an out-of-sync / in-sync replica, each naming the current or a stale (leader, epoch); X = more than the timeout passes (the pending expiry timer is stopped and failover.OnExpired invoked, exactly what the timer does); L = metadataAPI.LostLeadership(); in half of the programs P = PauseStream and, directly or up to two calls later, Q = the RESUME_STREAM entry that replaces the partition object are inserted between the calls (plus now and then a resume of a running partition or a pause that is never resumed); the monitors' memory (epochs, leader per epoch, reports of the window) spans the replacement; in two of five programs one follower report naming the current pair is made with a context whose deadline has passed (!dead) or is 1 ms away (!tight), so that an election it triggers cannot be replicated and fails (or is committed although the caller is told it timed out), in half of these followed by X and a further follower report; now and then a ShrinkISR / ExpandISR is made with such a context. I1-I6 checked after every call and at every committed Raft entry; non-trivial = a leader change or ISR change was committed or a stale request was refused; distinct = (replicas, initial leader, program)")
 	c07Assumptions(rep)
 	root := kit.NewRNG(kit.Mix(kit.Seed(), 0xC07))
 	n := kit.Scale(1500, 20000)
@@ -277,7 +329,7 @@ func TestVerifC07Timer(t *testing.T) {
 	rep := kit.NewReport("C07", "timer")
 	defer rep.Write()
 	T := 60 * time.Millisecond
-	rep.SetRule("real-timer profile (ReplicaMaxLeaderTimeout = 60ms): directed programs around the expiry (reports split by a pause of 10 timeouts must not add up; split by about one timeout either outcome is accepted; back to back they add up) plus seeded programs of 3..8 calls with X (pause of 10 timeouts) and G (pause of 0.7 timeouts); same oracle; whether the code had a timer pending before a pause is peeked (Stop+Reset) to tell 'expired' from 'nothing to expire'; non-trivial = leader/ISR change committed or stale request refused")
+	rep.SetRule("real-timer profile (ReplicaMaxLeaderTimeout = 60ms): directed programs around the expiry (reports split by a pause of 10 timeouts must not add up; split by about one timeout either outcome is accepted; back to back they add up; the same around an election that FAILS because the report completing the quorum is made with an expired or 1 ms context: reports older than a pause of 10 timeouts never count afterwards, whether or not the code had a timer pending) plus seeded programs of 3..8 calls with X (pause of 10 timeouts) and G (pause of 0.7 timeouts); same oracle; whether the code had a timer pending before a pause is peeked (Stop+Reset) to tell 'expired' from 'nothing to expire'; non-trivial = leader/ISR change committed or stale request refused")
 	c07Assumptions(rep)
 	rep.Assume("after a pause of 10 timeouts (plus up to 3 s of grace while the failover entry is still registered) the expiry timer's handler has run; pauses of about one timeout never reset the model's window")
 	env, err := c07NewEnv(rep, "t", T, true)
@@ -287,6 +339,7 @@ func TestVerifC07Timer(t *testing.T) {
 	}
 	defer env.close()
 	R := func(who string) c07Op { return c07Op{Kind: "R", Who: who} }
+	D := func(who string) c07Op { return c07Op{Kind: "R", Who: who, Ctx: "dead"} }
 	X, G := c07Op{Kind: "X"}, c07Op{Kind: "G"}
 	directed := [][]c07Op{
 		{R("f0"), X, R("f1")},
@@ -299,6 +352,18 @@ func TestVerifC07Timer(t *testing.T) {
 		{R("f0"), X, R("f1"), R("f0")},
 		{R("f0"), {Kind: "S", Who: "fl"}, X, R("f0")},
 		{R("f0"), G, R("f0"), G, R("f0"), G, R("f1")},
+		// an election that fails (the report that completes the quorum is made with
+		// an expired context), then pauses around the timeout, then late reports:
+		// reports older than a pause of 10 timeouts must not count, whatever the
+		// code did with its timer
+		{R("f0"), D("f1"), X, R("f0")},
+		{R("f0"), D("f1"), X, X, R("f1")},
+		{R("f0"), D("f1"), X, R("f0"), X, R("f1")},
+		{R("f0"), D("f1"), G, R("f0")},
+		{R("f0"), D("f1"), R("f0"), R("f1")},
+		{R("f0"), D("f1"), X, R("f0"), R("f1")},
+		{D("f0"), X, R("f1")},
+		{R("f0"), {Kind: "R", Who: "f1", Ctx: "tight"}, X, R("f0")},
 	}
 	var cases []c07Case
 	for _, n := range []int{3, 5} {
@@ -308,7 +373,10 @@ func TestVerifC07Timer(t *testing.T) {
 	}
 	cases = append(cases, c07Case{N: 5, Leader: 0, Prog: []c07Op{R("f0"), R("f1"), X, R("f2")}},
 		c07Case{N: 5, Leader: 0, Prog: []c07Op{R("f0"), X, R("f1"), R("f2")}},
-		c07Case{N: 5, Leader: 0, Prog: []c07Op{R("f0"), R("f1"), G, R("f2")}})
+		c07Case{N: 5, Leader: 0, Prog: []c07Op{R("f0"), R("f1"), G, R("f2")}},
+		c07Case{N: 5, Leader: 0, Prog: []c07Op{R("f0"), R("f1"), D("f2"), X, R("f0")}},
+		c07Case{N: 5, Leader: 0, Prog: []c07Op{R("f0"), R("f1"), D("f2"), X, R("f0"), R("f1")}},
+		c07Case{N: 5, Leader: 0, Prog: []c07Op{R("f0"), R("f1"), D("f2"), X, R("f3"), X, R("f0"), R("f1")}})
 	root := kit.NewRNG(kit.Mix(kit.Seed(), 0xC07A))
 	nseeded := kit.Scale(70, 700)
 	for i := 0; i < nseeded; i++ {
@@ -329,7 +397,7 @@ func TestVerifC07Timer(t *testing.T) {
 			return
 		}
 		out.account(rep, fmt.Sprintf("%d/%d|%s", cs.N, cs.Leader, c07ProgString(cs.Prog)))
-		if i == 0 || i == 1 || i == len(directed)*2+4 {
+		if i == 0 || i == 1 || i == len(directed)*2+7 {
 			rep.Sample(map[string]interface{}{"replicas": cs.N, "program": c07ProgString(cs.Prog), "leader_changes": out.changes, "isr_changes": out.isrChanges})
 		}
 	})
